@@ -101,6 +101,29 @@ class C03(Property):
         "apply_cluster_rules", "find_protoclusters", "_extend_area_location", "apply_extenders",
         "remove_redundant_protoclusters", "merge_over_origin", "strip_inferior_domains", "build_results",
         "detect_protoclusters_and_signatures", "find_dynamic_hits")] + [
+        ("antismash/common/hmm_rule_parser/cluster_prediction.py", "Ruleset.__post_init__"),
+        ("antismash/common/hmm_rule_parser/cluster_prediction.py", "RuleDetectionResults.protoclusters"),
+        ("antismash/common/hmm_rule_parser/cluster_prediction.py", "CDSResults.__init__"),
+        ("antismash/common/hmm_rule_parser/rule_parser.py", "Parser._parse_rule"),
+        ("antismash/common/hmm_rule_parser/rule_parser.py", "Parser._parse_superiors"),
+        ("antismash/common/hmm_rule_parser/rule_parser.py", "Parser.__init__"),
+        ("antismash/common/hmm_rule_parser/rule_parser.py", "DetectionRule.__init__"),
+        ("antismash/common/hmm_rule_parser/rule_parser.py", "Details.__init__"),
+        ("antismash/common/hmm_rule_parser/rule_parser.py", "Details.in_range"),
+        ("antismash/common/hmm_rule_parser/rule_parser.py", "Conditions.get_satisfied"),
+        ("antismash/common/hmm_rule_parser/rule_parser.py", "Conditions.is_satisfied"),
+        ("antismash/common/hmm_rule_parser/rule_parser.py", "Conditions.are_subconditions_satisfied"),
+        ("antismash/common/hmm_rule_parser/rule_parser.py", "AndCondition.is_satisfied"),
+        ("antismash/common/hmm_rule_parser/rule_parser.py", "SingleCondition.is_satisfied"),
+        ("antismash/common/hmm_rule_parser/rule_parser.py", "CDSCondition.is_satisfied"),
+        ("antismash/common/hmm_rule_parser/rule_parser.py", "MinimumCondition.is_satisfied"),
+        ("antismash/common/hmm_rule_parser/rule_parser.py", "ConditionMet.__bool__"),
+        ("antismash/common/secmet/features/feature.py", "Feature.__init__"),
+        ("antismash/common/secmet/features/feature.py", "Feature.overlaps_with"),
+        ("antismash/common/secmet/features/feature.py", "Feature.is_contained_by"),
+        ("antismash/common/secmet/locations.py", "location_contains_overlapping_exons"),
+        ("antismash/common/secmet/record.py", "Record.get_distance_between_features"),
+        ("antismash/common/secmet/record.py", "Record.is_circular"),
         ("antismash/common/hmm_rule_parser/rule_parser.py", "DetectionRule.detect"),
         ("antismash/common/hmm_rule_parser/rule_parser.py", "DetectionRule.can_extend_to"),
         ("antismash/common/secmet/features/protocluster.py", "Protocluster.__init__"),
@@ -135,7 +158,9 @@ class C03(Property):
                "HMMER hit production (find_hmmer_hits, filter_results*) is not exercised: hits come from dynamic profiles",
                "Protocluster/CDSCollection constructor checks are modelled as the errors they raise; SecMetQualifier annotation is not observed",
                "the order of `record.get_cds_features()` (bisect insertion by Feature.__lt__) is an input of the model",
-               "Python set/dict iteration order is not observable in the canonicalised outputs"]
+               "Python set/dict iteration order is not observable in the canonicalised outputs",
+               "about 30 % of the cases that can be written as rule text go through the real Parser and Ruleset multipliers "
+               "(tag rules-via-text+multipliers); the model receives the distances / superiors the case declares"]
 
     # ------------------------------------------------------------------ generators
     PROFS = ["a", "b", "c", "x"]
@@ -254,7 +279,7 @@ class C03(Property):
         length, circular, genes = self.rand_layout(rng, cutoffs, unit)
         self.assign_hits(rng, genes)
         rules = self.rand_rules(rng, cutoffs, nbhds)
-        return {"len": length, "circ": circular, "genes": genes, "rules": rules}
+        return {"len": length, "circ": circular, "genes": genes, "rules": rules, "text": rng.random() < 0.3}
 
     def targeted_case(self, rng: random.Random) -> Dict[str, Any]:
         """structured scenarios around the mechanisms of the property, with random sizes"""
@@ -421,7 +446,7 @@ class C03(Property):
         rng.shuffle(out)
         for n, g in enumerate(out):
             g["n"] = n
-        return {"len": max(length, 1), "circ": circ, "genes": out, "rules": rules}
+        return {"len": max(length, 1), "circ": circ, "genes": out, "rules": rules, "text": rng.random() < 0.3}
 
     def cases(self, rng: random.Random, tier: str, deep: bool) -> Iterator[Dict[str, Any]]:
         n_random = 50000 if deep else 6000
@@ -517,16 +542,66 @@ class C03(Property):
 
         def mkprof(p: str) -> Any:
             return DynamicProfile(p, "d", lambda record, hmmer: {k: list(v) for k, v in table[p].items()})
-        rules = []
-        for r in case["rules"]:
-            cond = common.build_cond(r["cond"])
-            top = cond if type(cond) is rp.Conditions else rp.Conditions(False, [cond])
-            ext = common.build_cond(r["ext"]) if r["ext"] is not None else None
-            rules.append(rp.DetectionRule(r["name"], "cat", r["cutoff"], r["nbhd"], top,
-                                          superiors=list(r["sup"]), extenders=ext))
-        ruleset = cp.Ruleset(tuple(rules), {}, "", {"cat"}, "tool",
-                             dynamic_profiles={p: mkprof(p) for p in profs}, equivalence_groups=[])
+        ruleset = None
+        self.last_via_text = False
+        if case.get("text"):
+            ruleset = self.ruleset_from_text(case, profs, {p: mkprof(p) for p in profs})
+            self.last_via_text = ruleset is not None
+        if ruleset is None:
+            rules = []
+            for r in case["rules"]:
+                cond = common.build_cond(r["cond"])
+                top = cond if type(cond) is rp.Conditions else rp.Conditions(False, [cond])
+                ext = common.build_cond(r["ext"]) if r["ext"] is not None else None
+                rules.append(rp.DetectionRule(r["name"], "cat", r["cutoff"], r["nbhd"], top,
+                                              superiors=list(r["sup"]), extenders=ext))
+            ruleset = cp.Ruleset(tuple(rules), {}, "", {"cat"}, "tool",
+                                 dynamic_profiles={p: mkprof(p) for p in profs}, equivalence_groups=[])
         return rec, ruleset
+
+    @staticmethod
+    def ruleset_from_text(case: Dict[str, Any], profs: List[str], dynamic: Dict[str, Any]) -> Any:
+        """the same ruleset through the real rule text parser and the real distance multipliers
+           (`RULE … CUTOFF kb NEIGHBOURHOOD kb CONDITIONS … [EXTENDERS …]`, `Ruleset(multipliers=…)`), when the case
+           can be written that way: superiors defined earlier and transitively closed, distances a whole
+           number of (scaled) kilobases; None otherwise"""
+        import math
+        from antismash.common.hmm_rule_parser import rule_parser as rp, cluster_prediction as cp
+        from antismash.common.hmm_rule_parser.structures import Multipliers
+        rules = case["rules"]
+        seen: Dict[str, List[str]] = {}
+        for r in rules:
+            closed = set(r["sup"])
+            for s_name in r["sup"]:
+                if s_name not in seen:
+                    return None
+                closed.update(seen[s_name])
+            if closed != set(r["sup"]) or len(set(r["sup"])) != len(r["sup"]):
+                return None
+            seen[r["name"]] = list(r["sup"])
+
+        def scale(values: List[int]) -> Optional[Any]:
+            nonzero = [v for v in values if v]
+            unit = math.gcd(*nonzero) if nonzero else 1
+            mult = unit / 1000
+            if any(int((v // unit) * 1000 * mult) != v for v in values):
+                return None
+            return unit, mult
+        cs, ns = scale([r["cutoff"] for r in rules]), scale([r["nbhd"] for r in rules])
+        if cs is None or ns is None:
+            return None
+        lines = []
+        for r in rules:
+            sup = f" SUPERIORS {', '.join(r['sup'])}" if r["sup"] else ""
+            ext = f" EXTENDERS {common.cond_str(r['ext'])}" if r["ext"] is not None else ""
+            lines.append(f"RULE {r['name']} CATEGORY cat{sup} CUTOFF {r['cutoff'] // cs[0]} NEIGHBOURHOOD {r['nbhd'] // ns[0]} "
+                         f"CONDITIONS {common.cond_str(r['cond'])}{ext}")
+        try:
+            parsed = rp.Parser("\n".join(lines), set(profs), {"cat"}).rules
+        except Exception:  # pylint: disable=broad-except
+            return None
+        return cp.Ruleset(tuple(parsed), {}, "", {"cat"}, "tool", multipliers=Multipliers(cutoff=cs[1], neighbourhood=ns[1]),
+                          dynamic_profiles=dynamic, equivalence_groups=[])
 
     def run_impl(self, case: Dict[str, Any]) -> Dict[str, Any]:
         from antismash.common.hmm_rule_parser import cluster_prediction as cp
@@ -550,7 +625,7 @@ class C03(Property):
             clusters.append({"rule": pc.product, "core": unstranded(common.location_json(pc.core_location)),
                              "loc": unstranded(common.location_json(pc.location)), "defs": sorted(defs)})
         clusters.sort(key=lambda c: (c["rule"], repr(c["core"]), repr(c["loc"])))
-        return {"clusters": clusters, "order": order, "lookup_dev": len(LOOKUP_DEVIATIONS)}
+        return {"clusters": clusters, "order": order, "lookup_dev": len(LOOKUP_DEVIATIONS), "via_text": self.last_via_text}
 
     def driver_line(self, case: Dict[str, Any], obs: Dict[str, Any]) -> Optional[Dict[str, Any]]:
         if "order" not in obs:
@@ -572,6 +647,8 @@ class C03(Property):
                 "plain" if scope["plain"] else "superiors/extenders"]
         if obs.get("lookup_dev"):
             tags.append("lookup-deviates")
+        if obs.get("via_text"):
+            tags.append("rules-via-text+multipliers")
         if "err" in obs:
             kind = obs["err"].split(":")[0]
             corr = model.get("err") == kind
